@@ -107,3 +107,176 @@ Proof.
     refine (proj2 (proj2 (sort_stable_spec ptest prio_leb Htot Htr (fun t => (pt_prio t =? p)%Z) _ l))).
     intros a b Ha Hb. apply prio_leb_le. lia.
 Qed.
+
+(* ------------------------------------------------------------------ the comparisons are orders *)
+
+Definition ord_ok {A} (c : A -> A -> comparison) : Prop :=
+  (forall a b, c b a = CompOpp (c a b)) /\
+  (forall a b x, c a b = Eq -> c b x = c a x) /\
+  (forall a b x, c a b = Lt -> c b x = Lt -> c a x = Lt).
+
+Lemma lex_ok {A B C} (f : C -> A) (g : C -> B) c1 c2 :
+  ord_ok c1 -> ord_ok c2 -> ord_ok (fun x y : C => lex (c1 (f x) (f y)) (c2 (g x) (g y))).
+Proof.
+  intros (S1 & E1 & T1) (S2 & E2 & T2). unfold lex. split; [|split].
+  - intros a b. rewrite (S1 (f a) (f b)), (S2 (g a) (g b)).
+    destruct (c1 (f a) (f b)); reflexivity.
+  - intros a b x. destruct (c1 (f a) (f b)) eqn:E; try discriminate. intros H2.
+    rewrite (E1 _ _ (f x) E), (E2 _ _ (g x) H2). reflexivity.
+  - intros a b x. destruct (c1 (f a) (f b)) eqn:Eab; try discriminate.
+    + intros H2. rewrite (E1 _ _ (f x) Eab). destruct (c1 (f a) (f x)); try discriminate; [|reflexivity].
+      intros H3. exact (T2 _ _ _ H2 H3).
+    + intros _. destruct (c1 (f b) (f x)) eqn:Ebx; try discriminate.
+      * intros _. assert (c1 (f a) (f x) = Lt); [|rewrite H; reflexivity].
+        (* b = x for c1: c1 x a = c1 b a = Gt *)
+        pose proof (S1 (f b) (f x)) as Hs. rewrite Ebx in Hs. cbn in Hs.
+        pose proof (E1 _ _ (f a) Hs) as He. rewrite (S1 (f a) (f b)), Eab in He. cbn in He.
+        rewrite (S1 (f x) (f a)), <- He. reflexivity.
+      * intros _. rewrite (T1 _ _ _ Eab Ebx). reflexivity.
+Qed.
+
+Lemma ord_ok_key {A B} (k : B -> A) c : ord_ok c -> ord_ok (fun x y => c (k x) (k y)).
+Proof.
+  intros (S & E & T). split; [|split].
+  - intros a b. apply S.
+  - intros a b x. apply E.
+  - intros a b x. apply T.
+Qed.
+
+Lemma N_compare_ok : ord_ok N.compare.
+Proof.
+  split; [|split].
+  - intros a b. apply N.compare_antisym.
+  - intros a b x H. apply N.compare_eq in H. subst. reflexivity.
+  - intros a b x H1 H2. rewrite N.compare_lt_iff in *. lia.
+Qed.
+
+Lemma str_cmp_eq a : forall b, str_cmp a b = Eq -> a = b.
+Proof.
+  induction a as [|x a IH]; intros [|y b]; cbn [str_cmp]; try discriminate; [reflexivity|].
+  destruct (x ?= y) eqn:E; try discriminate. intros H. apply N.compare_eq in E. subst.
+  f_equal. apply IH; exact H.
+Qed.
+
+Lemma str_cmp_ok : ord_ok str_cmp.
+Proof.
+  split; [|split].
+  - intros a. induction a as [|x a IH]; intros [|y b]; cbn [str_cmp]; try reflexivity.
+    rewrite (N.compare_antisym x y). destruct (x ?= y); cbn [CompOpp]; [apply IH | reflexivity | reflexivity].
+  - intros a b x H. apply str_cmp_eq in H. subst. reflexivity.
+  - intros a. induction a as [|x a IH]; intros [|y b] [|z c]; cbn [str_cmp]; try discriminate; try reflexivity.
+    destruct (x ?= y) eqn:Exy; try discriminate.
+    + apply N.compare_eq in Exy. subst. destruct (y ?= z); try discriminate; [apply IH | reflexivity].
+    + intros _. destruct (y ?= z) eqn:Eyz; try discriminate.
+      * apply N.compare_eq in Eyz. subst. rewrite Exy. reflexivity.
+      * intros _. rewrite N.compare_lt_iff in *. assert (x < z) by lia.
+        apply N.compare_lt_iff in H. rewrite H. reflexivity.
+Qed.
+
+(* the enum's derived Ord as a lexicographic order on (variant index, kind, name) *)
+Definition nk_tag (a : bin_nk) : N :=
+  match a with BkNone => 0 | BkNameOnly _ => 1 | BkNameAndKind _ _ => 2 end.
+Definition nk_kind (a : bin_nk) : str := match a with BkNameAndKind k _ => k | _ => [] end.
+Definition nk_name (a : bin_nk) : str :=
+  match a with BkNone => [] | BkNameOnly n => n | BkNameAndKind _ n => n end.
+
+Lemma nk_cmp_lex a b :
+  nk_cmp a b = lex (nk_tag a ?= nk_tag b) (lex (str_cmp (nk_kind a) (nk_kind b)) (str_cmp (nk_name a) (nk_name b))).
+Proof. destruct a, b; reflexivity. Qed.
+
+Lemma ord_ok_ext {A} (c c' : A -> A -> comparison) :
+  (forall a b, c a b = c' a b) -> ord_ok c' -> ord_ok c.
+Proof.
+  intros Hext (S & E & T). split; [|split].
+  - intros a b. rewrite !Hext. apply S.
+  - intros a b x. rewrite !Hext. apply E.
+  - intros a b x. rewrite !Hext. apply T.
+Qed.
+
+Lemma nk_cmp_ok : ord_ok nk_cmp.
+Proof.
+  eapply ord_ok_ext; [exact nk_cmp_lex|].
+  apply (lex_ok nk_tag (fun a => a) N.compare
+           (fun a b => lex (str_cmp (nk_kind a) (nk_kind b)) (str_cmp (nk_name a) (nk_name b))));
+    [exact N_compare_ok|].
+  apply (lex_ok nk_kind nk_name str_cmp str_cmp); exact str_cmp_ok.
+Qed.
+
+Lemma binary_id_cmp_ok : ord_ok binary_id_cmp.
+Proof.
+  unfold binary_id_cmp. apply ord_ok_key. unfold comp_cmp.
+  apply (lex_ok bc_pkg bc_nk str_cmp nk_cmp); [exact str_cmp_ok | exact nk_cmp_ok].
+Qed.
+
+Definition iter_cmp (a b : ptest) : comparison :=
+  lex (binary_id_cmp (pt_bin a) (pt_bin b)) (str_cmp (pt_name a) (pt_name b)).
+
+Lemma iter_cmp_ok : ord_ok iter_cmp.
+Proof. apply (lex_ok pt_bin pt_name binary_id_cmp str_cmp); [exact binary_id_cmp_ok | exact str_cmp_ok]. Qed.
+
+Lemma leb_of_ord {A} (c : A -> A -> comparison) :
+  ord_ok c ->
+  let leb a b := match c a b with Gt => false | _ => true end in
+  (forall a b, leb a b = true \/ leb b a = true) /\
+  (forall a b x, leb a b = true -> leb b x = true -> leb a x = true).
+Proof.
+  intros (S & E & T) leb. split.
+  - intros a b. unfold leb. rewrite (S a b). destruct (c a b); cbn; auto.
+  - intros a b x. unfold leb. destruct (c a b) eqn:Eab; try discriminate; intros _.
+    + rewrite (E _ _ x Eab). auto.
+    + destruct (c b x) eqn:Ebx; try discriminate; intros _.
+      * pose proof (S b x) as Hs. rewrite Ebx in Hs. cbn in Hs.
+        pose proof (E _ _ a Hs) as He. rewrite (S a b), Eab in He. cbn in He.
+        rewrite (S x a), <- He. reflexivity.
+      * rewrite (T _ _ _ Eab Ebx). reflexivity.
+Qed.
+
+(* iter_tests() order is sorted by (binary id, name) *)
+Lemma iter_order_sorted l :
+  StronglySorted (fun a b => iter_leb a b = true) (iter_order l) /\ Permutation (iter_order l) l.
+Proof.
+  destruct (leb_of_ord iter_cmp iter_cmp_ok) as [Htot Htr].
+  destruct (sort_stable_spec ptest iter_leb Htot Htr (fun _ => false) ltac:(discriminate) l) as (H1 & H2 & _).
+  split; assumption.
+Qed.
+
+Lemma filter_sorted {A} (R : A -> A -> Prop) f l : StronglySorted R l -> StronglySorted R (filter f l).
+Proof.
+  induction 1 as [|x l Hl IH Hx]; cbn [filter]; [constructor|].
+  destruct (f x); [|exact IH]. constructor; [exact IH|].
+  apply Forall_forall. intros y Hy. apply filter_In in Hy.
+  exact (proj1 (Forall_forall _ _) Hx y (proj1 Hy)).
+Qed.
+
+(* the order of the queue handed to the scheduler *)
+Definition queue_le (a b : ptest) : Prop :=
+  (pt_prio b < pt_prio a)%Z \/ (pt_prio a = pt_prio b /\ iter_leb a b = true).
+
+Lemma sorted_combine l :
+  StronglySorted (fun a b => (pt_prio b <= pt_prio a)%Z) l ->
+  (forall p, StronglySorted (fun a b => iter_leb a b = true) (filter (fun t => (pt_prio t =? p)%Z) l)) ->
+  StronglySorted queue_le l.
+Proof.
+  induction 1 as [|x l Hl IH Hx]; intros Hf; [constructor|].
+  constructor.
+  - apply IH. intros p. specialize (Hf p). cbn [filter] in Hf.
+    destruct (pt_prio x =? p)%Z; [inversion Hf; assumption | exact Hf].
+  - apply Forall_forall. intros y Hy.
+    pose proof (proj1 (Forall_forall _ _) Hx y Hy) as Hle. cbn beta in Hle. unfold queue_le.
+    destruct (Z.eq_dec (pt_prio x) (pt_prio y)) as [E|E]; [right|left; lia].
+    split; [exact E|]. specialize (Hf (pt_prio x)). cbn [filter] in Hf. rewrite Z.eqb_refl in Hf.
+    inversion Hf as [|? ? _ Hall]; subst.
+    apply (proj1 (Forall_forall _ _) Hall y). apply filter_In. split; [exact Hy|].
+    apply Z.eqb_eq. symmetry; exact E.
+Qed.
+
+(* descending priority, then binary id (RustBinaryId's Ord), then test name *)
+Lemma priority_queue_sorted l :
+  StronglySorted queue_le (priority_queue l) /\ Permutation (priority_queue l) l.
+Proof.
+  unfold priority_queue.
+  destruct (priority_sort_correct (iter_order l)) as (H1 & H2 & H3).
+  destruct (iter_order_sorted l) as [I1 I2]. split.
+  - apply sorted_combine; [exact H1|]. intros p. rewrite H3. apply filter_sorted. exact I1.
+  - rewrite H2. exact I2.
+Qed.
